@@ -1014,3 +1014,70 @@ def field_uses_of(F, fn, adt_path, base="_1", depth=3, _seen=None):
                     if callee is not None:
                         out |= field_uses_of(F, callee, adt_path, "_%d" % (i + 1), depth - 1, _seen)
     return out
+
+
+_SUMM_CACHE = {}
+
+
+def calls_to(F, fn, pattern):
+    """calls in fn whose callee matches `pattern`, or whose callee is a wrapper that calls such a function on every
+    one of its normal paths (Min et al.'s wrapper rule): extracting `self.call_stack.pop()` into a helper keeps the
+    rule satisfied"""
+    key = (id(F), pattern)
+    if key not in _SUMM_CACHE:
+        _SUMM_CACHE[key] = must_call_summary(F, pattern)
+    summ = _SUMM_CACHE[key]
+    r = re.compile(pattern)
+    return [c for c in fn.calls if not c.indirect and (r.search(c.name) or c.callee_uid() in summ)]
+
+
+def unexpected_callers(F, pattern, allowed, depth=3):
+    """K1 with wrapper tolerance. `allowed(top_fn) -> bool`. A call site of `pattern` is fine when its enclosing
+    function is allowed, or when that function is a pure wrapper (calls `pattern` on every normal path) all of whose
+    own call sites are fine (helper extraction keeps the rule satisfied). Returns [(fn, call)] of offending sites."""
+    key = (id(F), pattern)
+    if key not in _SUMM_CACHE:
+        _SUMM_CACHE[key] = must_call_summary(F, pattern)
+    summ = _SUMM_CACHE[key]
+    r = re.compile(pattern)
+
+    def sites_of(pred):
+        return [(f, c) for f in F.fns.values() for c in f.calls if not c.indirect and pred(c)]
+
+    def ok_site(f, c, d, seen):
+        t = top_fn(F, f)
+        if allowed(t):
+            return True
+        if d <= 0 or t.uid in seen or t.uid not in summ or t.kind == "Closure":
+            return False
+        # a small wrapper: every caller of the wrapper must be fine
+        callers_ = sites_of(lambda x, u=t.uid: x.callee_uid() == u)
+        if not callers_:
+            return False
+        return all(ok_site(g, cc, d - 1, seen | {t.uid}) for g, cc in callers_)
+
+    bad = []
+    n = 0
+    for f, c in sites_of(lambda x: bool(r.search(x.name))):
+        n += 1
+        if not ok_site(f, c, depth, frozenset()):
+            bad.append((f, c))
+    return bad, n
+
+
+def resolve_place(fn, place, depth=5):
+    """expand the base local of a place through its defining ref/refmut/use/copy statements, so that
+    `_4.*` with `_4 = &mut (*_1).index` reads `_1.*.{..::index}.*`"""
+    for _ in range(depth):
+        m = re.match(r"(_\d+)(.*)$", place)
+        if not m:
+            return place
+        base, rest = m.group(1), m.group(2)
+        ds = [st for st in fn.stmts if st.lhs == base and st.kind in ("ref", "refmut", "use")]
+        if len(ds) != 1:
+            return place
+        src = re.sub(r"^(move|copy) ", "", ds[0].ops[0])
+        if not re.match(r"_\d+", src):
+            return place
+        place = src + rest
+    return place
